@@ -55,8 +55,19 @@ class HashedCallable(object):
         return "<component %s>" % self.__name__
 
 
+class RegistryPoint(HashedCallable):
+    """dr recognises a registry point by the name of its class: failures of the components built on it are recorded against it too"""
+
+    def __init__(self, fn, h=None):
+        HashedCallable.__init__(self, fn, h)
+        self.__symx_order__ = getattr(fn, "__symx_order__", 0)
+
+    def __hash__(self):
+        return object.__hash__(self) if self.h is None else self.h
+
+
 class World(object):
-    def __init__(self, n, edges, outcome_of, base, hashes=None):
+    def __init__(self, n, edges, outcome_of, base, hashes=None, rp0=False, disabled=None):
         self.n, self.edges = n, edges
         self.comps = []
         self.invocations = {}
@@ -89,7 +100,13 @@ class World(object):
                 raise ValueError("crash %d" % _i)
             body.__name__ = body.__qualname__ = "c%d" % i
             body.__symx_order__ = i
-            self.comps.append(ctype(*deps, optional=opt)(body if hashes is None else HashedCallable(body, hashes[i])))
+            if i == 0 and rp0:
+                target = RegistryPoint(body, None if hashes is None else hashes[i])
+            else:
+                target = body if hashes is None else HashedCallable(body, hashes[i])
+            self.comps.append(ctype(*deps, optional=opt)(target))
+        if disabled is not None:
+            dr.set_enabled(self.comps[disabled], False)
 
     def deps(self, i):
         return [j for j in range(i) if self.edges.get((i, j), "none") != "none"]
@@ -112,7 +129,7 @@ def summary(w, brokers):
                     dup.append(i)
                 inst[i] = b[c]
             for ex in b.exceptions.get(c, []):
-                exc.append((i, type(ex).__name__, bool(b.tracebacks.get(ex))))
+                exc.append((i, type(ex).__name__, str(ex) if isinstance(ex, ValueError) else "", bool(b.tracebacks.get(ex))))
             if c in b.missing_requirements:
                 r, a = b.missing_requirements[c]
                 miss[i] = (tuple(w.comps.index(x) for x in r), tuple(tuple(w.comps.index(x) for x in g) for g in a))
@@ -189,7 +206,18 @@ def make_check(n, variants):
                     chosen[i] = OUTCOMES[en.choice("outcome_%d" % i, len(OUTCOMES))]
                 return chosen[i]
             base = [en.fresh_int("b%d" % i) for i in range(n)]
-            w = World(n, edges, outcome_of, base)
+            rp0 = en.flag("rp0")                       # component 0 is a registry point (failures of its consumers are recorded against it)
+            dis = en.choice("disabled", n + 1)         # one component switched off with set_enabled(False), or none
+            disabled = dis if dis < n else None
+            if disabled is not None:
+                # with a disabled component the outcomes are kept to value / crash so that the space stays explorable
+                _lazy = outcome_of
+
+                def outcome_of(i, _lazy=_lazy):      # noqa
+                    if i not in chosen:
+                        chosen[i] = ["value", "crash"][en.choice("outcome2_%d" % i, 2)]
+                    return chosen[i]
+            w = World(n, edges, outcome_of, base, None, rp0, disabled)
             keys = [i for i in range(n) if en.flag("key_%d" % i)]
             if not keys:
                 raise core.Abort()
@@ -198,7 +226,7 @@ def make_check(n, variants):
             info = {}
             case = lambda mv: {"n": n, "edges": [[i, j, k] for (i, j), k in sorted(edges.items())], "keys": keys,  # noqa
                                "outcomes": dict((str(i), o) for i, o in chosen.items()), "variant": variant, "broker_given": given,
-                               "info": info, "base": [mv.int(b_) for b_ in base]}
+                               "info": info, "base": [mv.int(b_) for b_ in base], "rp0": rp0, "disabled": disabled}
             en.note_sample(case)
             # reference: one single pass in CPython's native order
             ref_b = dr.run(w.graph(keys), broker=dr.Broker())
@@ -324,9 +352,9 @@ def _native(case, hashes=None):
     base = case.get("base") or [100 * (i + 1) for i in range(n)]
     keys = case["keys"]
     # the reference is always the single pass over components in their creation order
-    w0 = World(n, edges, lambda i: outcomes.get(i, "value"), base, list(range(n)) if hashes is not None else None)
+    w0 = World(n, edges, lambda i: outcomes.get(i, "value"), base, list(range(n)) if hashes is not None else None, case.get("rp0", False), case.get("disabled"))
     ref = summary(w0, [dr.run(w0.graph(keys), broker=dr.Broker())])
-    w = World(n, edges, lambda i: outcomes.get(i, "value"), base, hashes)
+    w = World(n, edges, lambda i: outcomes.get(i, "value"), base, hashes, case.get("rp0", False), case.get("disabled"))
     v = case["variant"]
     given = case.get("broker_given")
     bad = []
